@@ -251,6 +251,13 @@ def check_pair(F, cid, sx, sy, mx, my, ow, stats=None):
     P = M.partial_class(F, cid)
     specs, modes = (sx, sy), (mx, my)
     (X, Y), snaps, out = _operands(F, cid, specs, modes)
+    # a conversion asked for earlier on an operand must not influence what the merge result converts to
+    for o in (X, Y):
+        if isinstance(o, PartialModel):
+            try:
+                o.from_partial()
+            except Exception:  # noqa: BLE001  (incomplete operands do not convert)
+                pass
     got = _outcome(lambda: merge2(P, X, Y, ow))
     got_n = _outcome(lambda: P.merge(X, Y, allow_overwrite=ow))
     if not ow:
@@ -263,6 +270,14 @@ def check_pair(F, cid, sx, sy, mx, my, ow, stats=None):
     j = _judge(cid, specs, acc, got)
     if j:
         out.append(_finding(law, j, f"x.y = {_show(got)}; documented: {_show_acc(acc)}"))
+    elif got[0] == "ok":
+        m = next((a for a in acc if _same(a, got)), None)
+        if m is not None and M.is_complete(cid, m[2]):
+            c = M.complete_object(F, cid, m[2])
+            conv = _outcome(lambda: got[2].from_partial())
+            jj = _judge(cid, specs, [("ok", M.snapshot(c)[0], m[2])], conv)
+            if jj:
+                out.append(_finding("merge-result-converts", jj, f"(x.y).from_partial() = {_show(conv)} for x.y = {_show(got)} (from_partial() had been called on the operands before)"))
     d = _differ(cid, specs, got, got_n)
     if d:
         out.append(_finding("merge()-is-fold-of-merge_with", d, f"merge_with: {_show(got)}; P.merge(x, y): {_show(got_n)}"))
